@@ -209,7 +209,7 @@ def run_C08(run):
     stats = par([lambda sfx=sfx, fl=fl: run.build_trace("tr_C08", "Gen_C08" + sfx, ["-DVT_NO_ASSERT"] + fl) for sfx, fl in C08_CFGS])
     trace_cov(run, stats)
     gens = [os.path.join(run.dir, "Gen_C08%s.v" % sfx) for sfx, _ in C08_CFGS if os.path.exists(os.path.join(run.dir, "Gen_C08%s.v" % sfx))]
-    run.prove(gens, ["C08/A_C08_defs.v"], ["C08/P_C08_ortho_frustum.v", "C08/P_C08_perspective.v", "C08/P_C08_dispatch.v", "C08/P_C08_project.v"], "C08/Properties_C08.v")
+    run.prove(gens, ["C08/A_C08_defs.v"], ["C08/P_C08_ortho_frustum.v", "C08/P_C08_perspective.v", "C08/P_C08_dispatch.v", "C08/P_C08_project.v", "C08/P_C08_ivp.v"], "C08/Properties_C08.v")
     fails = oracle_sweep(run, "C08", [(sfx.strip("_") or "RHNO", fl) for sfx, fl in C08_CFGS], run.tier)
     run.fails = run.triage(fails)
     run.assumptions = ["statements are about the exact real-number value (evalR) of the traced float expressions; tan/sin/cos are the real functions; no rounding bound is proved",
